@@ -59,7 +59,9 @@ func checkC03(c *Ctx) {
 	nLen := 0
 	for _, di := range av.storesToField(wc + "Length") {
 		st := di.i.(*ssa.Store)
-		_ = lengthVal
+		if di.fr == av.root {
+			lengthVal = ir.StripConv(st.Val)
+		}
 		nLen++
 		a := av.affine(st.Val, di.fr, nil, 0)
 		want := symAffine("len(param:"+sigP.Name()+")", nil)
@@ -137,7 +139,8 @@ func checkC03(c *Ctx) {
 		}
 	}
 	isLenLoad := func(v ssa.Value) bool {
-		return ir.FieldID(ir.StripConv(v)) == wc+"Length"
+		// dwLength: a load of the header field, or the very value that was stored there
+		return ir.FieldID(ir.StripConv(v)) == wc+"Length" || lengthVal != nil && ir.StripConv(v) == lengthVal
 	}
 	// the pad is judged by value, whatever computes it: evaluated for each residue of
 	// dwLength modulo 8 (deepmod.go) it must be the distance to the next multiple of 8
@@ -167,6 +170,44 @@ func checkC03(c *Ctx) {
 	sizeField := "debug/pe.DataDirectory.Size"
 	vaField := "debug/pe.DataDirectory.VirtualAddress"
 	sizeInRoot := len(storesTo(fn, "debug/pe.DataDirectory.Size")) > 0
+	// working copies: locals of the directory type that end up, as a whole, in
+	// p.Datadir (dir := p.Datadir; ...; p.Datadir = dir) stand for the entry
+	dirCell := map[ssa.Value]bool{}
+	for changed := true; changed; {
+		changed = false
+		instrsOf(fn, func(i ssa.Instruction) {
+			st, ok := i.(*ssa.Store)
+			if !ok {
+				return
+			}
+			ld, isLd := st.Val.(*ssa.UnOp)
+			if !isLd || ld.Op != token.MUL {
+				return
+			}
+			src, isA := ld.X.(*ssa.Alloc)
+			if !isA || dirCell[src] || ir.NamedTypeID(src.Type()) != "debug/pe.DataDirectory" {
+				return
+			}
+			toEntry := ir.RootOf(st.Addr) == ssa.Value(recv) && ir.FieldID(st.Addr) == acPkg+".PECOFFBinary.Datadir"
+			if dst, isD := st.Addr.(*ssa.Alloc); toEntry || isD && dirCell[dst] {
+				dirCell[src] = true
+				changed = true
+			}
+		})
+	}
+	isEntry := func(addr ssa.Value) bool {
+		r := ir.RootOf(addr)
+		return r == ssa.Value(recv) || dirCell[r]
+	}
+	isOldSize := func(sym string, v ssa.Value) bool {
+		if strings.HasSuffix(sym, ".Datadir.Size") {
+			return true
+		}
+		if ld, ok := ir.StripConv(v).(*ssa.UnOp); ok && ld.Op == token.MUL {
+			return ir.FieldID(ld.X) == sizeField && dirCell[ir.RootOf(ld.X)]
+		}
+		return false
+	}
 	paths, complete := successPaths(fn, 256)
 	if !sizeInRoot {
 		c.R.Infof("M2.conserve", fname, "table+directory-paths", c.Pos(fn.Pos()), "not decided for this shape: the directory Size is not updated by stores in AppendSignature itself")
@@ -182,7 +223,7 @@ func checkC03(c *Ctx) {
 		for _, blk := range path {
 			for _, in := range blk.Instrs {
 				st, ok := in.(*ssa.Store)
-				if !ok || ir.RootOf(st.Addr) != ssa.Value(recv) {
+				if !ok || !isEntry(st.Addr) {
 					continue
 				}
 				switch ir.FieldID(st.Addr) {
@@ -194,7 +235,7 @@ func checkC03(c *Ctx) {
 					next := newAffine()
 					next.K = a.K
 					for sym, cf := range a.T {
-						if strings.HasSuffix(sym, ".Datadir.Size") {
+						if isOldSize(sym, a.Sym[sym]) {
 							next = next.add(cur.scale(cf), 1)
 						} else {
 							next = next.add(symAffine(sym, a.Sym[sym]).scale(cf), 1)
@@ -205,6 +246,21 @@ func checkC03(c *Ctx) {
 			}
 		}
 		var olds, lens, pads int64
+		if lengthVal != nil {
+			// dwLength computed once and used as a value: take its expression out
+			if la := affineOf(lengthVal, 0); len(la.T) > 0 && !(len(la.T) == 1 && la.K == 0) {
+				rest := cur.add(la, -1)
+				clean := rest.K == 0
+				for sym := range la.T {
+					if _, still := rest.T[sym]; still {
+						clean = false
+					}
+				}
+				if clean {
+					cur, lens = rest, 1
+				}
+			}
+		}
 		other := ""
 		otherUndecided := false
 		for sym, cf := range cur.T {
@@ -433,7 +489,7 @@ func checkC03(c *Ctx) {
 				}
 				d := e2.add(s2, -1)
 				if !d.isConst() || d.K != 8 {
-					bad = append(bad, "the replaced directory entry is not 8 bytes long")
+					bad = append(bad, "the replaced directory entry is not 8 bytes long (from "+s2.String()+" to "+e2.String()+")")
 				}
 				if !s3.equal(e2) {
 					bad = append(bad, "the rest of the file does not start right after the directory entry")
